@@ -136,6 +136,7 @@ def unit_scaling_backend(
 
         # Go through and mark nodes which represent residual-adds
         residual_layer_number = 1
+        regular_adds = []
         for node in graph.nodes:
             if _is_add(node):
                 is_residual_add = False
@@ -157,9 +158,15 @@ def unit_scaling_backend(
                 # the inbuilt + operation is handled differently when traced. It is
                 # instead substituted for its unit scaled equivalent here.
                 if not is_residual_add:
-                    logger.info("unit scaling function: %s", node)
-                    kwargs = dict(node.kwargs, constraint=None)  # unconstrained
-                    replace_node_with_function(graph, node, U.add, kwargs=kwargs)
+                    regular_adds.append(node)
+
+        # (Replaced only once all adds have been classified, so that the dependency
+        # information used above stays valid, e.g. for a skip tensor that is itself
+        # the result of a regular add)
+        for node in regular_adds:
+            logger.info("unit scaling function: %s", node)
+            kwargs = dict(node.kwargs, constraint=None)  # unconstrained
+            replace_node_with_function(graph, node, U.add, kwargs=kwargs)
 
         # Replace nodes marked as residual-adds with unit scaled equivalent
         for node in graph.nodes:
